@@ -158,6 +158,11 @@ func init() {
 			c.Fail("passed-through-token-rejected|"+errType(rr.Err), fmt.Sprint(rr.Err))
 			return
 		}
+		if res.Fault != nil && res.Fault.Raw && res.Fault.Type == 0 && !res.Grey && rr.Err == nil {
+			// (also after -- and for an ignored unknown option that lands on a typed positional)
+			c.Fail("unconvertible-token-accepted", map[string]interface{}{"token": res.Fault.Token, "rest": rr.Rest})
+			return
+		}
 		if rr.Err != nil || res.Fault != nil {
 			c.Hit("rejected")
 			return
